@@ -192,7 +192,16 @@ def channels(check, prog):
     def sel_of(attr):
         return intern(('attr', ('call', ('attr', ('attr', sch, attr), 'sel'), (),
                                 (('illumination', e),)), 'values'))
-    ts = lp['vars'].get('this_schema', (None, None))[1]
+    # the per-channel quantities are identified by their role: the field that
+    # is appended to the stack is single_colour(<channel scatterer>, <channel
+    # schema>)
+    tf = tsc = ts = None
+    if v[0] == 'call' and v[2] and v[2][0][0] == 'loop':
+        st0 = v[2][0][4]
+        if st0[0] == 'mut' and st0[2] == 'append' and len(st0[3]) == 1:
+            tf = st0[3][0]
+            if tf[0] == 'call' and len(tf[2]) == 2:
+                tsc, ts = tf[2]
     um = [c for c in subterms(ts) if c[0] == 'call' and c[1] == MD + 'update_metadata'] \
         if ts is not None else []
     ok = bool(um) and um[0][2] and um[0][2][0] == sch
@@ -207,14 +216,14 @@ def channels(check, prog):
                                                        else None))
     check.require(ok, 'S2-by-label', 'channel schema',
                   'per-channel schema = update_metadata(schema, ...)', loc)
-    tsc = lp['vars'].get('this_scatterer', (None, None))[1]
     ok = tsc == ('call', IFM + 'select_scatterer_by_illumination',
                  (sym('scatterer'), e), ())
     check.require(ok, 'S2-by-label', 'channel scatterer',
                   "this channel's scatterer values are selected by the channel label",
                   loc, fail_detail='scatterer = %s' % (show(tsc)[:160] if tsc else None))
-    tf = lp['vars'].get('this_field', (None, None))[1]
-    ok = tf is not None and tf[0] == 'call' and tf[2] == (tsc, ts)
+    ok = tf is not None and tf[0] == 'call' and tf[2] == (tsc, ts) and \
+        isinstance(tf[1], tuple) and tf[1][0] == 'attr' and \
+        tf[1][2] == '_calculate_single_color_scattered_field'
     check.require(ok, 'S2-by-label', 'channel field',
                   'field computed from this channel\'s scatterer and schema', loc)
     # stacking
